@@ -3,25 +3,25 @@ package main
 func init() {
 	properties["C01"] = &Property{
 		Title:      "blocks expand back to the input (round trip)",
-		Rules:      []string{"R-TILE", "R-LITPAIR", "R-BLOCK-FRESH", "R-BLOCKCLIP", "R-OFFSET-AGREE", "R-PREFIX-STOP", "R-PREFIX-BOUND", "R-PREFIX-ALIGN", "R-INVALIDATE", "R-OSAP-RANGE", "R-OSAP-INDEX", "R-SHRINK-WRAP", "R-SHRINK-PB", "R-CMP-ALIGNED"},
+		Rules:      []string{"R-TILE", "R-LITPAIR", "R-BLOCK-FRESH", "R-BLOCKCLIP", "R-OFFSET-AGREE", "R-PREFIX-STOP", "R-PREFIX-BOUND", "R-PREFIX-ALIGN", "R-INVALIDATE", "R-OSAP-RANGE", "R-OSAP-INDEX", "R-SHRINK-WRAP", "R-SHRINK-PB", "R-CMP-ALIGNED", "R-FAIL-ATOMIC", "R-SLOT-CAP", "R-READFROM", "R-RESET-INSTALL"},
 		Decided:    "tiling of the block by literal runs and matches (cursor discipline, epilogue), LitLen/literal pairing, agreement of the emitted Offset with the positions actually compared (every word/prefix comparison feeding MatchLen is between x and x−Offset and starts where the verified part ends), re-basing/dropping of all search state on Shrink, recompute guard of OSAP's unverified edges.",
 		NotDecided: "byte-for-byte equality of the expansion; correctness of the 8-byte compare arithmetic, lcp/lcs, suffix.Sort/LCP/Segments.",
 	}
 	properties["C02"] = &Property{
 		Title:      "sequences are well-formed and inside the window",
-		Rules:      []string{"R-WINGUARD", "R-MINLEN", "R-AUX", "R-LITPAIR", "R-OFFSET-BACK", "R-CMP-ALIGNED"},
+		Rules:      []string{"R-WINGUARD", "R-MINLEN", "R-AUX", "R-LITPAIR", "R-OFFSET-BACK", "R-CMP-ALIGNED", "R-BLOCK-FRESH", "R-SEGCALL"},
 		Decided:    "window guard 0<o≤WindowSize, lower bound of MatchLen, Aux zero, LitLen pairing at every emission site.",
 		NotDecided: "for OSAP, Offset ≤ bytes before the match rests on suffix-array entries being ≥ 0 (C09); decided for the six self-verifying parsers (R-OFFSET-BACK).",
 	}
 	properties["C03"] = &Property{
 		Title:      "Parse accounts exactly and makes progress",
-		Rules:      []string{"R-CLAMP-N", "R-EMPTY", "R-ADVANCE", "R-TILE", "R-BLOCKCLIP", "R-PREFIX-BOUND", "R-BLOCK-FRESH", "R-WWRITERS", "R-BLOCKLEN"},
+		Rules:      []string{"R-CLAMP-N", "R-EMPTY", "R-ADVANCE", "R-TILE", "R-BLOCKCLIP", "R-PREFIX-BOUND", "R-BLOCK-FRESH", "R-WWRITERS", "R-BLOCKLEN", "R-FAIL-ATOMIC"},
 		Decided:    "block clamp, ErrEmptyBuffer discipline, returned n equals the W advance on every success return, W writer set, Block.Len.",
 		NotDecided: "that the bytes between W and W+n are the ones expanded (C01).",
 	}
 	properties["C14"] = &Property{
 		Title:      "Parse(nil) skips a block",
-		Rules:      []string{"R-CLAMP-N", "R-EMPTY", "R-ADVANCE", "R-NIL-NOEMIT", "R-GSAP-COVERED", "R-OSAP-RANGE", "R-HASHRANGE"},
+		Rules:      []string{"R-CLAMP-N", "R-EMPTY", "R-ADVANCE", "R-NIL-NOEMIT", "R-GSAP-COVERED", "R-OSAP-RANGE", "R-HASHRANGE", "R-FAIL-ATOMIC"},
 		Decided:    "nil branch: clamp, (0,ErrEmptyBuffer) iff n₀==0, W advanced by the returned n, blk never dereferenced; the structures a later Parse relies on are addressed through W itself (OSAP edge table range) and the skipped positions enter the hash tables only as complete n-grams with the value lookups compare.",
 		NotDecided: "that blocks parsed afterwards remain correct in general (C01).",
 	}
@@ -30,26 +30,26 @@ func init() {
 func init() {
 	properties["C04"] = &Property{
 		Title:      "decoder expands valid streams under every interleaving",
-		Rules:      []string{"R-SHRINK-SAFE", "R-COMPACTORS", "R-CURSOR", "R-APPENDONLY", "R-REMAINDER", "R-OFFGUARD", "R-DEC-RESET", "R-COUNTS-AT-END"},
+		Rules:      []string{"R-SHRINK-SAFE", "R-COMPACTORS", "R-CURSOR", "R-APPENDONLY", "R-REMAINDER", "R-OFFGUARD", "R-DEC-RESET", "R-COUNTS-AT-END", "R-REJECT-EXACT"},
 		Decided:    "compaction safety (δ ≤ R, δ ≤ len−WindowSize, R re-based), writer sets of R and Data, cursor discipline, append-only writes, remainder resubmission, match-copy source guards.",
 		NotDecided: "the arithmetic of the doubling overlapped copy; functional equivalence with a reference expander.",
 	}
 	properties["C05"] = &Property{
 		Title:      "malformed sequences rejected atomically, no panic",
-		Rules:      []string{"R-VALIDATE-FIRST", "R-OFFGUARD", "R-BLK-READONLY", "R-COUNTS-AT-END", "R-SUM", "R-SHRINK-SAFE"},
+		Rules:      []string{"R-VALIDATE-FIRST", "R-OFFGUARD", "R-BLK-READONLY", "R-COUNTS-AT-END", "R-SUM", "R-SHRINK-SAFE", "R-REJECT-EXACT", "R-DEC-INDEX", "R-STALELEN"},
 		Decided:    "no append precedes a rejection of the same sequence; the three rejections dominate the slices they protect; the caller's block arrays are never written; k/l computed at the merge of all exits.",
 		NotDecided: "absence of implicit run-time panics in general (only the explicitly guarded sites are proved).",
 	}
 	properties["C06"] = &Property{
 		Title:       "every decoder call terminates",
-		Rules:       []string{"R-LOOPS-DECODER", "R-OFFGUARD", "R-SHRINK-SAFE", "R-DRAIN-COMPLETE"},
+		Rules:       []string{"R-LOOPS-DECODER", "R-OFFGUARD", "R-SHRINK-SAFE", "R-DRAIN-COMPLETE", "R-REFUSE-EXACT", "R-COUNTS-AT-END", "R-ERR-SURFACE"},
 		Decided:     "every loop reachable from Decoder/DecoderBuffer methods matches a termination template (range, counting, doubling copy with off ≥ 1, retry with clamp or strict progress).",
 		NotDecided:  "the arithmetic side conditions of the templates for all values (argued once in DESIGN.md, only matched here).",
 		Assumptions: []string{"the destination io.Writer returns"},
 	}
 	properties["C07"] = &Property{
 		Title:      "what the parsers emit, the Decoder accepts",
-		Rules:      []string{"R-CAPERR", "R-WINAGREE", "R-DEC-HEADROOM", "R-COUNTS-AT-END", "R-REMAINDER", "R-SHRINK-SAFE", "R-OFFPAIR", "R-LOOPS-DECODER", "R-STALECAP"},
+		Rules:      []string{"R-CAPERR", "R-WINAGREE", "R-DEC-HEADROOM", "R-COUNTS-AT-END", "R-REMAINDER", "R-SHRINK-SAFE", "R-OFFPAIR", "R-LOOPS-DECODER", "R-STALECAP", "R-REFUSE-EXACT", "R-REJECT-EXACT", "R-SLOT-CAP"},
 		Decided:    "capacity-class errors (classified by their deciding guard) do not escape Decoder methods; the decoder's window rejection is exactly Offset > min(len, WindowSize).",
 		NotDecided: "that after acceptance the bytes are the original ones (C01 ∧ C04).",
 	}
@@ -70,13 +70,13 @@ func init() {
 func init() {
 	properties["C15"] = &Property{
 		Title:      "the parser buffer is a faithful, bounded sliding view",
-		Rules:      []string{"R-INDEXGUARD", "R-DEADERR", "R-WRITEBOUND", "R-READBOUND", "R-READFROM", "R-MARGIN", "R-SHRINK-PB", "R-SHRINK-WRAP", "R-RESET-COVER"},
+		Rules:      []string{"R-INDEXGUARD", "R-DEADERR", "R-WRITEBOUND", "R-READBOUND", "R-READFROM", "R-MARGIN", "R-SHRINK-PB", "R-SHRINK-WRAP", "R-RESET-COVER", "R-FAIL-ATOMIC", "R-RESET-INSTALL", "R-ACCESS-EXACT"},
 		Decided:    "index/slice guards of the accessors, reachability of the documented errors, byte bounds of Write/ReadFrom, 7-byte margin, Shrink arithmetic and its wrappers.",
 		NotDecided: "that the byte at absolute offset x is the x-th byte fed (contents equality); behaviour under caller mutation of exported fields.",
 	}
 	properties["C08"] = &Property{
 		Title:      "Wrap streams a reader completely",
-		Rules:      []string{"R-WRAP-ORDER", "R-READFROM", "R-READBOUND"},
+		Rules:      []string{"R-WRAP-ORDER", "R-READFROM", "R-READBOUND", "R-SHRINK-PB"},
 		Decided:    "Shrink-before-ReadFrom, retry iff bytes were read, return discipline of the wrap loop; ReadFrom keeps bytes read with an error, leaves its loop only on error/full, returns the byte difference.",
 		NotDecided: "io.EOF stickiness (a property of the reader), equality of block sequences across chunkings (needs C01, C13).",
 	}
@@ -85,7 +85,7 @@ func init() {
 func init() {
 	properties["C13"] = &Property{
 		Title:      "Reset ≡ new parser; determinism; instance isolation",
-		Rules:      []string{"R-RESET-COVER", "R-COPY-CLOBBER", "R-NOGLOBAL", "R-NONDET", "R-HASHRANGE"},
+		Rules:      []string{"R-RESET-COVER", "R-COPY-CLOBBER", "R-NOGLOBAL", "R-NONDET", "R-HASHRANGE", "R-FAIL-ATOMIC", "R-RESET-INSTALL"},
 		Decided:    "every location Parse may write is re-initialised by the method Reset resolves to; no live element is clobbered when a reused backing array is re-grown; no package-level mutable state; no nondeterminism source reachable from the API.",
 		NotDecided: "equality of blocks as such (follows for location-abstracted state); effects of retained capacity are assumed invisible except where R-COPY-CLOBBER applies.",
 	}
@@ -103,7 +103,7 @@ func init() {
 func init() {
 	properties["C16"] = &Property{
 		Title:       "accepted configurations never panic, hang or fail spuriously",
-		Rules:       []string{"R-INIT-ORDER", "R-VERIFY-REQ", "R-PANIC", "R-ERRSET", "R-LOOPS-PARSER", "R-MARGIN", "R-HASHRANGE", "R-GSAP-REBUILD", "R-GSAP-COVERED", "R-LOAD8", "R-BUCKET-INDEX", "R-INIT-NOFAIL"},
+		Rules:       []string{"R-INIT-ORDER", "R-VERIFY-REQ", "R-PANIC", "R-ERRSET", "R-LOOPS-PARSER", "R-MARGIN", "R-HASHRANGE", "R-GSAP-REBUILD", "R-GSAP-COVERED", "R-LOAD8", "R-BUCKET-INDEX", "R-INIT-NOFAIL", "R-WRITEBOUND", "R-DP-STEP", "R-DP-LIT", "R-FAIL-ATOMIC", "R-RESET-INSTALL"},
 		Decided:     "init order (SetDefaults, Verify, error returned, completed value stored); every downstream range requirement is implied by Verify; every reachable explicit panic is discharged; the error set of the parser API; termination templates for all parser-side loops of package lz; 7-byte margin.",
 		NotDecided:  "implicit run-time panics (index out of range in the sorters, integer overflow), memory exhaustion, termination of ssort/trSort (package suffix loops are not matched to templates).",
 		Assumptions: []string{"an io.Reader does not return (0, nil) forever", "DivSufSort-internal panics (algorithm invariants) are not decided"},
@@ -113,7 +113,7 @@ func init() {
 func init() {
 	properties["C10"] = &Property{
 		Title:       "suffix.Segments reports every shared-prefix group, completely, once",
-		Rules:       []string{"R-SEG-PRE", "R-SEG-BOUNDS", "R-SEG-LEFT", "R-SEG-ORDER", "R-SEG-SCAN"},
+		Rules:       []string{"R-SEG-PRE", "R-SEG-BOUNDS", "R-SEG-LEFT", "R-SEG-ORDER", "R-SEG-SCAN", "R-CMP-ALIGNED", "R-PREFIX-STOP", "R-PREFIX-COVER", "R-PREFIX-BOUND", "R-PREFIX-ALIGN", "R-KASAI", "R-LCP-INPUTS"},
 		Decided:     "the code shape of the LCP-interval stack scan: preconditions established by Segments (0 ≤ minLen ≤ maxLen, len(sa)=len(lcp) ≥ 1, early return only when nothing can be reported), m ∈ [minLen, maxLen] at the callback, left-boundary inheritance across pops, the three-way push / keep / report-then-pop split on the incoming lcp value, the scan position and sentinel, exit only with an empty stack.",
 		NotDecided:  "completeness as a fact about texts (that the invariant implies every pair of suffixes lands in exactly one callback) is argued from the invariant, not computed; distinctness of suffixes is inherited from sa being a permutation and the correctness of the LCP table (C09).",
 		Assumptions: []string{"lcp is the LCP table of sa (C09)", "lcp values are non-negative, so the negative sentinel closes every open interval"},
@@ -133,7 +133,7 @@ func init() {
 func init() {
 	properties["C11"] = &Property{
 		Title:       "OSAP emits a minimum-cost parse (structural necessary conditions)",
-		Rules:       []string{"R-DP-LIT", "R-DP-MATCH", "R-DP-BACK", "R-COSTTABLE", "R-EDGE-NEAREST", "R-SEGCALL", "R-OSAP-FASTPATH", "R-OSAP-INDEX", "R-OSAP-RANGE", "R-RESET-COVER", "R-INVALIDATE", "R-SEG-LEFT", "R-SEG-ORDER", "R-SEG-SCAN", "R-SEG-BOUNDS", "R-SEG-PRE"},
+		Rules:       []string{"R-DP-LIT", "R-DP-MATCH", "R-DP-BACK", "R-COSTTABLE", "R-EDGE-NEAREST", "R-SEGCALL", "R-OSAP-FASTPATH", "R-OSAP-INDEX", "R-OSAP-RANGE", "R-RESET-COVER", "R-INVALIDATE", "R-SEG-LEFT", "R-SEG-ORDER", "R-SEG-SCAN", "R-SEG-BOUNDS", "R-SEG-PRE", "R-SLOT-CAP"},
 		Decided:     "the dynamic program relaxes the literal step from every position and every (edge, length) pair up to min(edge.m, n−i) with the priced (m, o) stored, backtracks by the stored lengths from n to 0; the cost table of Verify and init agree and one cost function prices both step kinds; the edge builder sorts each group, pairs every occurrence with its predecessor, leaves early only monotonically and drops a pair only for window / dominance reasons; Segments is called with MinMatchLen and a MaxMatchLen-clamped maximum on tables of one text; the interval scan behind it is complete (C10 rules).",
 		NotDecided:  "optimality itself (a statement about all alternative parses); the cost model against XZ; completeness of the edges as a fact about texts (C09, C10).",
 		Assumptions: []string{"suffix.Sort/LCP are correct (C09)", "cost(a,0) is additive in a (XZCost: 9 bits per literal), so initialising d[i] with cost(i,0) agrees with unit literal steps"},
@@ -153,7 +153,7 @@ func init() {
 func init() {
 	properties["C09"] = &Property{
 		Title:       "suffix.Sort / LCP / InvertSA (narrow structural clauses)",
-		Rules:       []string{"R-TEXT-RO", "R-LCP-INPUTS", "R-KASAI", "R-INVERT", "R-SORT-SHORT", "R-PREFIX-STOP", "R-PREFIX-COVER", "R-PREFIX-BOUND", "R-PREFIX-ALIGN", "R-SIBLING-PARAMS"},
+		Rules:       []string{"R-TEXT-RO", "R-LCP-INPUTS", "R-KASAI", "R-INVERT", "R-SORT-SHORT", "R-PREFIX-STOP", "R-PREFIX-COVER", "R-PREFIX-BOUND", "R-PREFIX-ALIGN", "R-SIBLING-PARAMS", "R-CMP-ALIGNED"},
 		Decided:     "package suffix never writes a byte slice (the text is not modified); LCP reaches its core only with consistent lengths and with a supplied or freshly computed sa / sainv of the same text; the LCP core has the shape of the Kasai/phi recurrence including lcp[0] = 0; InvertSA stores sainv[sa[j]] = j for all j.",
 		NotDecided:  "that Sort produces the suffix array (B*-substring sort, tandem-repeat sort, induced sorting: ssort.go, trsort.go, k1.go) and its independence of the previous contents of sa — a value property of a 1,600-line in-place algorithm with sign-bit markers; no sound static argument is in reach and none is claimed. Defects inside the sorters (e.g. seeded C09-1, C09-2) are NOT detected by this check.",
 		Assumptions: []string{"matchLen returns the exact common prefix length of its arguments"},
